@@ -75,6 +75,19 @@ example : allStringsImpl main true .dflt (.str .navigableString (ofS " k ")) = [
 example : allStringsImpl main false .dflt (.str .comment (ofS "k")) = [] := by decide
 example : allStringsImpl main false .dflt (.str .navigableString []) = [] := by decide
 
+/-- Document order and "exactly the selected classes", separated: there is one fixed sequence of the string nodes
+    beneath an element (`strNodesL`, independent of every argument); each extraction is that sequence filtered by class —
+    nothing reordered, nothing selected dropped, nothing else added. -/
+theorem allStrings_filter_of_document_order (mn : List StrClass) (types : TypesArg) (nm : PStr) (i : Interesting)
+    (kids : List Node) :
+    allStringsImpl mn false types (.tag nm i kids) =
+      ((strNodesL kids).filter (fun p => (resolveTag mn i types).keeps p.1)).map (·.2) := by
+  rw [allStrings_eq_spec, textOfL_eq_filter]; rfl
+
+example : (match demo with | .tag _ _ ks => (strNodesL ks).map (·.1) | _ => []) =
+    [.navigableString, .comment, .script, .cData, .navigableString, .script, .navigableString, .templateString,
+     .templateString, .processingInstruction] := by decide
+
 /-- Law of the evaluator: the text of a sequence of siblings is the concatenation of their texts (so the text of
     an element is the concatenation, child by child, of the texts of its children). -/
 theorem spec_append (sel : StrClass → Bool) (a b : List Node) :
